@@ -29,4 +29,10 @@ CLAIMED = {
              'Mask constants INT_MASK/FRAC_MASK/INT_LSB/FRAC_MSB proved from their bit-operation definitions. Correspondence: all 23 public methods, 8-bit exhaustive on '
              'all 18 layouts, both profiles.',
         design_ref='7/C06', note=COMMON_NOTE, technique='Lean 4 proof over executable model + differential correspondence'),
+    'C07': dict(
+        text='Theorem SfxProps.C07.holds (full strength, all layouts, all operands): % = truncated remainder, rem_euclid = Euclidean remainder, '
+             'div_euclid forms = the four documented functions of the exact Euclidean quotient, likewise for primitive-integer divisors (incl. the divisor '
+             'whose fixed-point image does not fit and the unsigned-arithmetic tail of rem_euclid_int); zero divisor: None / documented panic; no check fires. '
+             'The div_euclid family was repaired in /repo (fix 44b358d) after the check reproduced the defect. Correspondence: 19 public methods, both profiles.',
+        design_ref='7/C07', note=COMMON_NOTE, technique='Lean 4 proof over executable model + differential correspondence'),
 }
